@@ -18,135 +18,156 @@ import (
 
 func runC05Atomic(c *Ctx, P string) {
 	p := c.P
-	c.rule(P, "hit-rebinds", "Allocate: on a path hit the handle's table entry is re-bound to the new node", 1)
+	wantRebind := P == "C05" || P == "C02"
+	wantAtomic := P == "C05" || P == "C29"
+	if wantRebind {
+		c.rule(P, "hit-rebinds", "Allocate: on a path hit the handle's table entry is re-bound to the new node", 1)
+	}
+	if wantAtomic {
+		c.rule(P, "dedup-atomic", "Allocate: the path lookup guarding the insertion holds the write lock, precedes the insertion and the lock is not dropped in between", 1)
+	}
 	alloc := p.Fn("(*FileHandleMap).Allocate")
 	if alloc == nil || len(alloc.Params) < 2 {
-		c.undecided(P, "hit-rebinds", "fn=Allocate", "", "not found")
+		if wantRebind {
+			c.undecided(P, "hit-rebinds", "fn=Allocate", "", "not found")
+		}
+		if wantAtomic {
+			c.undecided(P, "dedup-atomic", "fn=Allocate lookup-insert", "", "not found")
+		}
 		return
 	}
 	li := p.lockInfo()
-	fParam := alloc.Params[1]
-	fromParam := func(v ssa.Value) bool {
-		for d := 0; d < 6 && v != nil; d++ {
-			if v == ssa.Value(fParam) {
-				return true
+	fromParamOf := func(g *ssa.Function) func(ssa.Value) bool {
+		return func(v ssa.Value) bool {
+			for d := 0; d < 6 && v != nil; d++ {
+				if prm, ok := v.(*ssa.Parameter); ok && prm.Parent() == g {
+					return true
+				}
+				switch x := v.(type) {
+				case *ssa.MakeInterface:
+					v = x.X
+				case *ssa.ChangeInterface:
+					v = x.X
+				case *ssa.TypeAssert:
+					v = x.X
+				case *ssa.Extract:
+					v = x.Tuple
+				default:
+					return false
+				}
 			}
-			switch x := v.(type) {
-			case *ssa.MakeInterface:
-				v = x.X
-			case *ssa.ChangeInterface:
-				v = x.X
-			case *ssa.TypeAssert:
-				v = x.X
-			case *ssa.Extract:
-				v = x.Tuple
-			default:
-				return false
-			}
+			return false
 		}
-		return false
 	}
 	isField := func(v ssa.Value, name string) bool {
 		_, f, ok := fieldLoad(v)
 		return ok && f != nil && f.Name() == name
 	}
-	// path lookups (commaOk) and their found-values
 	type lk struct {
+		fn    *ssa.Function
 		in    *ssa.Lookup
-		found ssa.Value // the ok flag
+		found ssa.Value
 		id    ssa.Value
+		site  ssa.CallInstruction // call site in Allocate when fn is a helper
 	}
-	var lookups []lk
-	for _, b := range alloc.Blocks {
-		for _, in := range b.Instrs {
-			l, ok := in.(*ssa.Lookup)
-			if !ok || !l.CommaOk || !isField(l.X, "pathHandles") {
-				continue
-			}
-			e := lk{in: l}
-			if l.Referrers() != nil {
-				for _, r := range *l.Referrers() {
-					if ex, ok := r.(*ssa.Extract); ok {
-						if ex.Index == 1 {
-							e.found = ex
-						} else {
-							e.id = ex
+	collect := func(g *ssa.Function, site ssa.CallInstruction) []lk {
+		var out []lk
+		for _, b := range g.Blocks {
+			for _, in := range b.Instrs {
+				l, ok := in.(*ssa.Lookup)
+				if !ok || !l.CommaOk || !isField(l.X, "pathHandles") {
+					continue
+				}
+				e := lk{fn: g, in: l, site: site}
+				if l.Referrers() != nil {
+					for _, r := range *l.Referrers() {
+						if ex, ok := r.(*ssa.Extract); ok {
+							if ex.Index == 1 {
+								e.found = ex
+							} else {
+								e.id = ex
+							}
 						}
 					}
 				}
+				out = append(out, e)
 			}
-			lookups = append(lookups, e)
+		}
+		return out
+	}
+	lookups := collect(alloc, nil)
+	for _, call := range calls(alloc) {
+		if _, isDefer := call.(*ssa.Defer); isDefer {
+			continue
+		}
+		if g := staticCallee(call); g != nil && g.Pkg == p.Pkg && g != alloc && len(g.Blocks) > 0 {
+			lookups = append(lookups, collect(g, call)...)
 		}
 	}
-	if len(lookups) == 0 {
-		c.undecided(P, "hit-rebinds", "fn=Allocate", p.pos(alloc.Pos()), "no path lookup found in Allocate")
-		return
-	}
-	// hit-rebinds
-	rebinds := false
 	var insertPath *ssa.MapUpdate
 	for _, b := range alloc.Blocks {
 		for _, in := range b.Instrs {
-			mu, ok := in.(*ssa.MapUpdate)
-			if !ok {
-				continue
-			}
-			if isField(mu.Map, "pathHandles") {
+			if mu, ok := in.(*ssa.MapUpdate); ok && isField(mu.Map, "pathHandles") {
 				insertPath = mu
 			}
-			if !isField(mu.Map, "handles") || !fromParam(mu.Value) {
-				continue
-			}
 		}
 	}
-	// on every path from the hit edge to the return the entry is re-bound
-	for _, l := range lookups {
-		if l.id == nil || l.found == nil || l.found.Referrers() == nil {
-			continue
-		}
-		for _, r := range *l.found.Referrers() {
-			ifi, ok := r.(*ssa.If)
-			if !ok {
-				continue
+	if wantRebind {
+		if len(lookups) == 0 {
+			c.undecided(P, "hit-rebinds", "fn=Allocate path-hit", p.pos(alloc.Pos()), "no lookup of pathHandles in Allocate or its helpers")
+		} else {
+			rebinds := false
+			for _, l := range lookups {
+				l := l
+				if l.id == nil || l.found == nil || l.found.Referrers() == nil {
+					continue
+				}
+				fromParam := fromParamOf(l.fn)
+				for _, r := range *l.found.Referrers() {
+					ifi, ok := r.(*ssa.If)
+					if !ok {
+						continue
+					}
+					res := follow(followSpec{Fn: l.fn, Start: []*ssa.BasicBlock{ifi.Block().Succs[0]}, Closes: func(in ssa.Instruction) bool {
+						mu, ok := in.(*ssa.MapUpdate)
+						return ok && isField(mu.Map, "handles") && mu.Key == l.id && fromParam(mu.Value)
+					}})
+					if res.OK {
+						rebinds = true
+					}
+				}
 			}
-			hit := ifi.Block().Succs[0]
-			res := follow(followSpec{Fn: alloc, Start: []*ssa.BasicBlock{hit}, Closes: func(in ssa.Instruction) bool {
-				mu, ok := in.(*ssa.MapUpdate)
-				return ok && isField(mu.Map, "handles") && mu.Key == l.id && fromParam(mu.Value)
-			}})
-			if res.OK {
-				rebinds = true
-			}
+			c.verdictIf(rebinds, P, "hit-rebinds", "fn=Allocate path-hit", p.instrPos(lookups[0].in), "handles[existing] = new node on the hit edge",
+				"when the path already has a handle Allocate returns it without re-binding the table entry to the node just looked up: after a name is removed and re-created as an object of another type, the handle keeps behaving as the old object (LOOKUP/READDIR answer NOTDIR, READLINK INVAL)")
 		}
 	}
-	c.verdictIf(rebinds, P, "hit-rebinds", "fn=Allocate path-hit", p.instrPos(lookups[0].in), "handles[existing] = new node on the hit edge",
-		"when the path already has a handle Allocate returns it without re-binding the table entry to the node just looked up: after a name is removed and re-created as an object of another type, the handle keeps behaving as the old object (LOOKUP/READDIR answer NOTDIR, READLINK INVAL)")
-	if P != "C05" {
+	if !wantAtomic {
 		return
 	}
-	c.rule(P, "dedup-atomic", "Allocate: the path lookup guarding the insertion holds the write lock and dominates the insertion", 1)
+	holdsW := func(in ssa.Instruction) bool {
+		for id, m := range li.stateAt(in) {
+			if id.Class == "FileHandleMap.RWMutex" && m == 'W' {
+				return true
+			}
+		}
+		return false
+	}
 	good := false
-	why := "no insertion into pathHandles found"
+	why := "no insertion into pathHandles found in Allocate"
 	if insertPath != nil {
-		why = "the only lookups of pathHandles before the insertion run without the write lock (or do not dominate the insertion): two concurrent first requests for one path both miss and are given two different handles; the earlier one stays in the table as an orphan"
+		why = "the lookup of pathHandles that decides whether a new handle is issued does not share one write-locked section with the insertion (it runs under the read lock, under a lock of its own that is released before the insertion, or after it): two concurrent first requests for one path both miss and are given two different handles; the earlier one stays in the table as an orphan"
 		for _, l := range lookups {
-			w := false
-			for id, m := range li.stateAt(l.in) {
-				if id.Class == "FileHandleMap.RWMutex" && m == 'W' {
-					w = true
+			var anchor ssa.Instruction = l.in
+			if l.fn != alloc {
+				anchor = l.site // the helper runs where it is called; it must not take the lock itself
+				if !holdsW(l.site) {
+					continue
 				}
+			} else if !holdsW(l.in) {
+				continue
 			}
-			// (the lookup and the insertion sit under two separate `f is an NFSNode with a path` tests, so
-			// dominance is too strong: the lookup must precede the insertion on some path)
-			dom := l.in.Block() == insertPath.Block() && instrIndex(l.in) < instrIndex(insertPath) || l.in.Block() != insertPath.Block() && reachAvoiding([]*ssa.BasicBlock{l.in.Block()}, nil, nil)[insertPath.Block()]
-			wIns := false
-			for id, m := range li.stateAt(insertPath) {
-				if id.Class == "FileHandleMap.RWMutex" && m == 'W' {
-					wIns = true
-				}
-			}
-			// the lock must not be dropped in between: no Unlock/RUnlock call on a path from the lookup to the insertion
-			if w && dom && wIns && !unlockBetween(alloc, l.in, insertPath) {
+			before := anchor.Block() == insertPath.Block() && instrIndex(anchor) < instrIndex(insertPath) || anchor.Block() != insertPath.Block() && reachAvoiding([]*ssa.BasicBlock{anchor.Block()}, nil, nil)[insertPath.Block()]
+			if before && holdsW(insertPath) && !unlockBetween(alloc, anchor, insertPath) {
 				good = true
 			}
 		}
